@@ -130,6 +130,44 @@ def gen_mixture(rnd, n, T, outliers):
     return trees
 
 
+def gen_rotations(rnd, n):
+    """Three-tree (or six-tree) mixtures in which several majority clades keep no data of their own:
+    the data is cut into groups of 2-3 blocks; inside a group the trees disagree on which block is
+    the ancestor (a->b, b->a, side by side), so the group's union has support 2/3 and an empty own set."""
+    idx = list(range(n))
+    rnd.shuffle(idx)
+    groups = []
+    while len(idx) >= 2:
+        k = min(len(idx), rnd.choice([2, 2, 3]))
+        groups.append([[idx.pop()] for _ in range(k)])
+    rest = idx  # 0 or 1 left-over points
+    variants = []
+    for v in range(3):
+        roots = []
+        for g in groups:
+            r = (v + rnd.randrange(3)) % 3 if rnd.random() < 0.3 else v
+            if r == 0:
+                node = [g[0], [[b, []] for b in g[1:]]]
+                roots.append(node)
+            elif r == 1:
+                node = [g[1], [[b, []] for b in g[:1] + g[2:]]]
+                roots.append(node)
+            else:
+                roots.extend([b, []] for b in g)
+        top = rnd.random()
+        outs = []
+        if rest and top < 0.4:
+            roots = [[list(rest), roots]]
+        elif rest and top < 0.7:
+            roots.append([list(rest), []])
+        elif rest:
+            outs = list(rest)
+        variants.append({"forest": canon_forest(roots), "outs": outs})
+    trees = variants * rnd.choice([1, 1, 2])
+    rnd.shuffle(trees)
+    return trees
+
+
 def gen_weights(rnd, T):
     bits = rnd.choice([2, 3, 5])
     return [fr(Fraction(rnd.randint(1, 1 << bits), 1 << bits)) for _ in range(T)]
@@ -171,6 +209,15 @@ def cases(tier, rnd):
              "mode": "weighted" if weighted else "counts", "theta": THETAS[(i // 2) % len(THETAS)]}
         if weighted:
             c["weights"] = gen_weights(rnd, T)
+        out.append(c)
+    for i in range(60 if quick else 600):
+        n = rnd.randint(4, 7 if quick else 9)
+        trees = gen_rotations(rnd, n)
+        c = {"kind": "mix", "n": n, "dseed": rnd.randrange(1 << 30), "trees": trees, "mode": "counts",
+             "theta": rnd.choice(["1/2", "1/2", "3/5"])}
+        if i % 3 == 2:
+            c["mode"] = "weighted"
+            c["weights"] = [fr(Fraction(rnd.choice([3, 4, 5]), 8)) for _ in trees]
         out.append(c)
     st = small_trees()
     pairs = list(itertools.combinations_with_replacement(range(len(st)), 2))
@@ -445,8 +492,9 @@ def check_mix(ctx, case):
     ctx.stat(f"majority_{min(len(M), 6)}{'+' if len(M) > 6 else ''}")
     if r["built"] and r["built"][1]:
         ctx.stat("has_uncovered")
-    if any(not own for _, own in nodes_by_clade(r["built"][0])):
-        ctx.stat("has_empty_own_set")
+    empties = sum(1 for _, own in nodes_by_clade(r["built"][0]) if not own)
+    if empties:
+        ctx.stat("has_empty_own_set" if empties == 1 else "has_several_empty_own_sets")
     ctx.done(case, nontrivial=(distinct_inputs >= 2 and len(M) >= 2),
              sample={"n": n, "T": T, "mode": case["mode"], "theta": case["theta"], "majority": sorted(sorted(c) for c in M),
                      "outs": r["built"][1]})
